@@ -13,7 +13,7 @@ RULE_TEXT = ("SYS driver, paired runs: every scenario is simulated twice in one 
              "distinct = distinct canonical logs")
 claims = base.prefix_claims("C07.")
 WANT_PROBES = ["seed_pairs_compared", "uuid_stream_changed"]
-N_FRESH = {"quick": 24, "thorough": 400}
+N_FRESH = {"quick": 24, "thorough": 150}
 
 
 def make(family, rng, tier):
@@ -32,7 +32,7 @@ def execute(scn, rng):
 
 def plan(tier):
     q = tier == "quick"
-    return [("repro", 500 if q else 30000), ("indep", 200 if q else 6000)]
+    return [("repro", 500 if q else 10000), ("indep", 200 if q else 3000)]
 
 
 def sample(scn, out):
